@@ -332,7 +332,12 @@ func c15Batch(w *Worker, cases []*genCase, name string) {
 		if o.Kind == "repeat" {
 			e := byPkg[o.Pkg]
 			w.Count("long_lived_parsers", 1)
-			w.Count("long_lived_parses", int64(12000*len(e.inputs)))
+			rounds := 12000
+			if len(o.Trans) == 1 && o.Trans[0] < rounds && o.Pos < 0 {
+				rounds = o.Trans[0]
+				w.Cap(fmt.Sprintf("a long-lived parser was stopped after one minute (%d of 12000 rounds)", rounds))
+			}
+			w.Count("long_lived_parses", int64(rounds*len(e.inputs)))
 			if o.Pos >= 0 {
 				last := rt.Result{}
 				if len(o.Results) > 0 {
